@@ -13,7 +13,7 @@
 (* For draw_sample "same numbers" means the same draw under the same seed.                   *)
 (* The "summary" record makes TLC assert that the executed cases are exactly CondCases        *)
 (* (each executed r.reps times, with different evaluation points / conditioning values).      *)
-EXTENDS ParamRoutingOps, Json, IOUtils, TLC
+EXTENDS ParamRoutingOps, ParamRoutingMemoOps, Json, IOUtils, TLC
 
 TraceLog == ndJsonDeserialize(IOEnv.TRACE_FILE)
 VARIABLE l
@@ -34,13 +34,29 @@ CondClauses(r) ==
     <<"Compared", r.ncmp >= (IF GivenIsVector(r.shape) \/ XIsVector(r.shape) THEN 4 ELSE 2)>>
   >>
 
+(* "condhist" records: one history of ParamRoutingMemo (depth, steps) replayed on a real      *)
+(* ConditionalDistribution with a chained dependence function; tplrel / parrel are the worst    *)
+(* deviations over ALL evaluation steps of the history (after coefficients of any level were    *)
+(* re-assigned or the innermost level was fitted), nev the number of evaluations compared.       *)
+NEval(steps) == Cardinality({i \in 1..Len(steps) : steps[i] \in {"E1", "E2"}})
+CondHistClauses(r) ==
+  IF r.exc # "" THEN << <<"UnexpectedException", FALSE>> >>
+  ELSE <<
+    <<"CondEqualsTemplateAtValues", r.tplrel <= CondTolE15>>,
+    <<"ChainedSameGiven", r.parrel <= CondTolE15>>,
+    <<"Compared", r.nev = 3 * NEval(r.steps)>>
+  >>
+
 Idx(kind) == {i \in 1..Len(TraceLog) : TraceLog[i].kind = kind}
 CondSeen == {<<TraceLog[i].fam, TraceLog[i].D, TraceLog[i].chain, TraceLog[i].shape,
                TraceLog[i].method>> : i \in Idx("cond")}
+HistSeen == {<<TraceLog[i].depth, TraceLog[i].steps>> : i \in Idx("condhist")}
 SummaryClauses(r) ==
-  << <<"CondCoverage", CondSeen = CondCases /\ Cardinality(Idx("cond")) = r.reps * Cardinality(CondCases)>> >>
+  << <<"CondCoverage", CondSeen = CondCases /\ Cardinality(Idx("cond")) = r.reps * Cardinality(CondCases)>>,
+     <<"HistoryCoverage", HistSeen = MemoHistoryCases(4)>> >>
 
 Clauses(r) == CASE r.kind = "cond" -> CondClauses(r)
+                [] r.kind = "condhist" -> CondHistClauses(r)
                 [] r.kind = "summary" -> SummaryClauses(r)
 
 Verdict(r) == Failing(Clauses(r))
